@@ -520,6 +520,8 @@ def check(pid, tier):
         v = shrink(mod, v, profiles[0]) if hasattr(mod, "shrink_case") else v
         payload = {"property": pid, "kind": "failing-input", "violation": v, "count": len(ctx.violations),
                    "broken_obligations": [n for n, _ in broken], "seed": seed, "tier": tier,
+                   "others": [{"suite": o["suite"], "args": o["args"], "impl": o.get("impl"), "what": o["what"], "profile": o.get("profile")}
+                              for o in ctx.violations[1:40] if "suite" in o and "args" in o],
                    "replay_cmd": "tools/vp.py replay <this file>"}
         p = write_replay(pid, payload)
         print("VIOLATION property=%s replay=%s" % (pid, p))
